@@ -15,6 +15,15 @@ def trough_rows():
     ]
 
 
+def multiples():
+    """volumes that are exact multiples of the worklist's max_volume of 50 (large-volume notes in the histories)"""
+    return [
+        c01.T("T", ["A01"], "Q", ["C02"], [100]),
+        c01.T("T", ["A01", "B02"], "Q", ["A01", "B01"], [150, 50]),
+        c01.T("T", ["A02"], "T", ["A01"], [100], wash_scheme="reuse"),
+    ]
+
+
 def misc():
     return [
         ["call", "w", "comment", ["hello"], {}],
@@ -83,7 +92,7 @@ class Harness(cm.BaseA):
             return self.core_events({"failed": 0}, config) + [T("P", ["A01", "B01", "A02"], "P2", ["A01", "A01", "B02"], [70, 0, 120]), T("P2", ["A01"], "P", ["B02"], [0]), c01.R("T", 0, "P2", ["A01", "B01"], 30)]
         f = c03.failing_W1() if config["set"] == "W1" else c03.failing_W3()
         life = [["lifetime", ["A02", "B02", "B03"]], ["lifetime", ["B01", "A03"]]] if config["set"] == "W1" and not W.get("n") else []
-        return c01.SETS[config["set"]][2]("quick") + f + misc() + trough_rows() + life
+        return c01.SETS[config["set"]][2]("quick") + f + misc() + trough_rows() + multiples() + life
 
     def canon(self, W, config):
         parts = []
